@@ -253,5 +253,10 @@ def run(chk, facts, info):
                     agg[key] = [False, why, f.loc(ln)]
         for key, (ok, why, loc) in agg.items():
             chk.ob('C06-R4', key, ok, loc, why[:400])
+    chk.rule('C06-R7', 'p2hex.c MeasureFile(): the measured address range and granularity are updated only under '
+             'FilterOK(cpu) and the segment selection, i.e. for exactly the records ProcessFile() converts', min_instances=2)
+    from .c05 import selection_rule
+    if selection_rule(chk, facts, 'C06-R7', 'p2hex.c', 'MeasureFile') < 2:
+        raise AnalysisBroken('p2hex MeasureFile no longer updates start and stop')
     chk.note('Decided: checksum start per format and line, family descriptors for all emitted header ids, format/'
              'argument agreement, non-zero divisors. Not decided: textual validity and decoded contents per format.')
